@@ -315,6 +315,7 @@ def compile_state_script(steps):
         data.extend(bytes(bs))
         return off
     calls, exp = [], []
+    responses = []
     eslot, islot = {}, {}      # spec handle (gen, idx) -> slot that holds the real handle
     def handle(h, table):
         key = (h[0], h[1])
@@ -358,9 +359,15 @@ def compile_state_script(steps):
         elif a == "resize":
             calls.append(("state_entry_resize", [handle(st["h"], eslot), ("i32", st["n"])]))
             exp.append({"a": a, "r": r})
+        elif a in ("resume_same", "resume_updated"):
+            # the contract makes a transfer; the chain answers (after a re-entrant call that did or did not change this instance's state) and resumes it
+            calls.append(("invoke", [("i32", 0), ("i32", place(bytes([5] * 32) + struct.pack("<Q", 1))), ("i32", 40)]))
+            upd = a == "resume_updated"
+            exp.append({"a": a, "r": ["i", -(1 << 63) if upd else 0]})
+            responses.append({"kind": "success", "state_updated": upd, "ops": st["ops"] if upd else st["scratch"], "new_balance": 4241})
         else:
             return None
-    return calls, bytes(data), exp
+    return calls, bytes(data), exp, responses
 
 
 ERR = u(-1, 64) & ~(1 << 62)
@@ -388,8 +395,8 @@ def check_state_script(steps, res, exp):
                 if (a == "iterator", gu) in seen and seen[(a == "iterator", gu)] != key:
                     return "call %d (%s): handle value %#x was already issued for another handle" % (i, a, gu)
                 seen[(a == "iterator", gu)] = key
-        elif a in ("delete", "delprefix", "iterdelete", "write", "resize"):
-            want = -1 if r[0] == "max" else r[0]
+        elif a in ("delete", "delprefix", "iterdelete", "write", "resize", "resume_same", "resume_updated"):
+            want = -1 if r[0] == "max" else r[1] if r[0] == "i" else r[0]
             if got != want:
                 return "call %d (%s) returned %s, expected %s" % (i, a, got, want)
         elif a in ("size", "iterkeysize"):
@@ -513,9 +520,9 @@ def run_c14(ctx):
         c = compile_state_script(steps)
         if c is None or not c[0]:
             continue
-        calls, data, exp = c
+        calls, data, exp, responses = c
         comp2.append((steps, exp))
-        recs2.append({"version": 1, "wasm": build_contract(calls, SIGS_V1, data=data).hex(), "param": "", "energy": 1 << 50, "proto": 7})
+        recs2.append({"version": 1, "wasm": build_contract(calls, SIGS_V1, data=data).hex(), "param": "", "energy": 1 << 50, "proto": 7, "responses": responses})
     res2 = run_scripts(ctx, recs2, "state")
     for (steps, exp), res in zip(comp2, res2):
         ctx.note_case(steps)
@@ -537,7 +544,7 @@ def run(ctx):
         raise ToolError("no check for %s" % ctx.prop)
     scripts, compiled, hist = run_c14(ctx)
     need = {"outcome:success": 500, "outcome:trap": 500, "outcome:interrupt": 50, "write_output:i": 100, "log_event:i": 200, "get_parameter_section:i": 200,
-            "invoke:trap": 50, "v0_outcome:success": 500, "v0_outcome:reject": 500, "v0:write_state:i": 200, "v0:resize_state:i": 100, "v0:combine_and:i": 5, "state_scripts": 300, "state:write": 50, "state:iternext": 50, "budget_runs": 300}
+            "invoke:trap": 50, "state:resume_same": 50, "state:resume_updated": 50, "v0_outcome:success": 500, "v0_outcome:reject": 500, "v0:write_state:i": 200, "v0:resize_state:i": 100, "v0:combine_and:i": 5, "state_scripts": 300, "state:write": 50, "state:iternext": 50, "budget_runs": 300}
     for k, v in need.items():
         if hist.get(k, 0) < v:
             raise ToolError("vacuous C14 run: %s = %s (< %s)" % (k, hist.get(k, 0), v))
@@ -574,8 +581,8 @@ def replay(prop, path, seed):
                                  "proto": 4 if sc["limited"] else 7, "init_state_v0": V0_STATE[:sc["ops"][0]["args"][0]].hex()}], "replay")[0]
         bad = check_v0_script(sc, res, exp)
     else:
-        calls, data, exp = compile_state_script(rp["steps"])
-        res = run_scripts(ctx, [{"version": 1, "wasm": build_contract(calls, SIGS_V1, data=data).hex(), "param": "", "energy": 1 << 50, "proto": 7}], "replay")[0]
+        calls, data, exp, responses = compile_state_script(rp["steps"])
+        res = run_scripts(ctx, [{"version": 1, "wasm": build_contract(calls, SIGS_V1, data=data).hex(), "param": "", "energy": 1 << 50, "proto": 7, "responses": responses}], "replay")[0]
         bad = check_state_script(rp["steps"], res, exp)
     print("replayed 1 script: %s" % ("VIOLATION reproduced: %s" % bad if bad else "no disagreement"))
     return 1 if bad else 0
